@@ -449,7 +449,8 @@ func (m *MonC05) Probe(idx int) {
 			// recorded finding rounder-balance: the reported balance is floor(value + 0.01); when that rounds
 			// up, the full reported balance cannot be undelegated but balance-1 can
 			roundedUp := new(big.Rat).SetInt(bal).Cmp(s.Value(pk)) > 0
-			if (strings.Contains(res.Err, "insufficient delegation shares") || strings.Contains(res.Err, "insufficient tokens")) && bal.Cmp(big.NewInt(1)) == 0 && roundedUp {
+			predicted := emulateUndelegateRefusal(s, pk, math.NewIntFromBigInt(bal))
+			if (strings.Contains(res.Err, "insufficient delegation shares") || strings.Contains(res.Err, "insufficient tokens")) && bal.Cmp(big.NewInt(1)) == 0 && roundedUp && predicted {
 				rep.KnownFinding("C05", "rounder-balance", "the position (%s,%s,%s) reports a balance of 1 for an exact value of %s; undelegating 1 fails with %q and nothing smaller can be undelegated", w.Name(pk.Del), w.Name(pk.Val), pk.Denom, ratStr(s.Value(pk)), res.Err)
 				rep.Class("C05.known.rounder-balance")
 				continue
@@ -461,7 +462,7 @@ func (m *MonC05) Probe(idx int) {
 				if os.Getenv("VMON_DEBUG") != "" {
 					fmt.Printf("C05 retry: claim %s, undelegate(B-1) %s; value %s\n", r1, r2, ratStr(s.Value(pk)))
 				}
-				if r1.OK && r2.OK {
+				if r1.OK && r2.OK && predicted {
 					rep.KnownFinding("C05", "rounder-balance", "undelegating the full reported balance %s of (%s,%s,%s) fails with %q although balance-1 succeeds: the reported balance is the exact value %s plus 0.01 rounded down", bal, w.Name(pk.Del), w.Name(pk.Val), pk.Denom, res.Err, ratStr(s.Value(pk)))
 					rep.Class("C05.known.rounder-balance")
 					continue
@@ -477,4 +478,50 @@ func probeLarge(c Config, den string) string {
 		return sp.Mag
 	}
 	return "1000000"
+}
+
+// emulateUndelegateRefusal re-computes, with the module's own 18-digit operations applied to the
+// independently decoded records, whether undelegating `amt` from the position is refused by the
+// documented mechanism of rounder-balance (share count for the amount, truncated, exceeds the shares held;
+// or the tokens recomputed from the shares, plus 0.01, rounded down, are below the amount).
+func emulateUndelegateRefusal(s *Snap, pk PosKey, amt math.Int) bool {
+	d, ok := s.Dels[pk]
+	v := s.Vals[pk.Val]
+	a, okA := s.Assets[pk.Denom]
+	if !ok || v == nil || !v.HasInfo || !okA {
+		return false
+	}
+	vs := decAmount(v.Info.ValidatorShares, pk.Denom)
+	var valTokens math.LegacyDec
+	if a.TotalValidatorShares.IsZero() {
+		valTokens = math.LegacyNewDecFromInt(a.TotalTokens)
+	} else {
+		valTokens = vs.Quo(a.TotalValidatorShares).Mul(math.LegacyNewDecFromInt(a.TotalTokens))
+	}
+	S := decAmount(v.Info.TotalDelegatorShares, pk.Denom)
+	if valTokens.IsZero() {
+		return false // division by zero: another finding
+	}
+	var need math.LegacyDec
+	if S.TruncateInt().IsZero() {
+		need = math.LegacyNewDecFromInt(amt)
+	} else {
+		need = S.Quo(valTokens).MulInt(amt)
+	}
+	use := need
+	switch {
+	case d.Shares.Sub(need).Abs().LT(math.LegacyNewDecWithPrec(1, 2)):
+		use = d.Shares
+	case d.Shares.LT(need.TruncateDec()):
+		return true
+	case need.GT(d.Shares):
+		use = d.Shares
+	}
+	var tok math.LegacyDec
+	if S.IsZero() {
+		tok = valTokens
+	} else {
+		tok = use.Quo(S).Mul(valTokens)
+	}
+	return amt.GT(tok.Add(math.LegacyNewDecWithPrec(1, 2)).TruncateInt())
 }
